@@ -59,7 +59,10 @@ PROPS = {
                       "contract over random interleavings of reads and live generators.",
                 note="independence over all histories follows by induction on the history from 'every operation "
                      "re-establishes the invariants and its result is a function of file and request'; that induction "
-                     "is argued in DESIGN.md (the Lean lemma planned there was not built)",
+                     "is the Lean 4 theorem C05.history_independent (lean/HistoryIndependence.lean, kernel-checked on "
+                     "every run); that the per-operation contracts proved by pyvc are instances of the theorem's "
+                     "hypothesis (one Inv for all operations) is argued in DESIGN.md, and the segment-level streams "
+                     "are shape-bounded in the number of data objects",
                 assumptions=["single thread; file contents immutable while open"]),
     "C06": dict(level="other",
                 claim="_read_lead_in: clamp of the segment end to the data file size, incomplete flag, EOFError for cut "
